@@ -172,11 +172,18 @@ pub fn parse_fun_args(it: &mut LexIterator) -> ParseResult<Vec<AST>> {
     let mut args = vec![];
     it.peek_while_not_token(&Token::RRBrack, &mut |it, _| {
         args.push(*it.parse(&parse_fun_arg, "function arguments", start)?);
-        it.eat_if(&Token::Comma);
+        if !it.peek_if(&|lex| lex.token == Token::RRBrack) {
+            it.eat(&Token::Comma, "function arguments")?;
+        }
         Ok(())
     })?;
 
     it.eat(&Token::RRBrack, "function arguments")?;
+    let varargs: Vec<&AST> =
+        args.iter().filter(|arg| matches!(&arg.node, Node::FunArg { vararg: true, .. })).collect();
+    if let Some(second) = varargs.get(1) {
+        return Err(Box::from(custom("A function can have at most one vararg argument", second.pos)));
+    }
     Ok(args)
 }
 
@@ -200,6 +207,10 @@ pub fn parse_fun_arg(it: &mut LexIterator) -> ParseResult {
         "function argument default",
         start,
     )?;
+
+    if let (true, Some(default)) = (vararg, &default) {
+        return Err(Box::from(custom("A vararg argument cannot have a default", default.pos)));
+    }
 
     let end = default.clone().map_or(expression_type.pos, |def| def.pos);
     let node = Node::FunArg {
